@@ -64,12 +64,7 @@ def conversions(body, op, max_steps=40):
 
 
 def segs_of(t):
-    while isinstance(t, tuple) and t and t[0] == "call" and (names.is_(t[1], "Iterator::collect") or names.is_(t[1], "Iterator::copied") or names.is_(t[1], "Iterator::cloned")) and not names.is_(t[2][0][1] if isinstance(t[2][0], tuple) and len(t[2][0]) > 1 and isinstance(t[2][0][1], str) else "", "x"):
-        if names.is_(t[1], "Iterator::collect"):
-            t = t[2][0]
-        else:
-            break
-    return chain_segments(t)
+    return flow.byte_segments(t)
 
 
 def run(chk):
@@ -168,7 +163,7 @@ def run(chk):
         sb, st = sg[0]
         msg = flow.simplify_term(Ta.operand(st["args"][1], sb, "t"))
         sc = segs_of(msg)
-        ok = len(sc) == 4 and sc[0] == ("field", ("upvar", 1), "application") and is_call(sc[1], "once") and sc[1][2][0] == ("upvar", 3) and is_call(sc[2], "u32::to_be_bytes") and sc[2][2][0] == ("upvar", 2) and sc[3] == ("field", ("upvar", 1), "challenge")
+        ok = len(sc) == 4 and sc[0] == ("field", ("upvar", 1), "application") and sc[1] == ("array", (("upvar", 3),)) and is_call(sc[2], "u32::to_be_bytes") and sc[2][2][0] == ("upvar", 2) and sc[3] == ("field", ("upvar", 1), "challenge")
         chk.ob("R3 authentication signature base", "R3|authenticate|layout", ok, where(ua, sb), "signed message segments: %s" % [flow.term_str(x)[:50] for x in sc])
         key = flow.simplify_term(Ta.operand(st["args"][0], sb, "t"))
         okk = has(key, lambda x: is_call(x, "private_key_from_cose_key")) and has(key, lambda x: isinstance(x, tuple) and len(x) == 3 and x[0] == "field" and x[2] == "key" and has(x[1], lambda y: is_call(y, "CredentialStore::find_credentials")))
